@@ -176,7 +176,8 @@ class TreeGen:
             inner = subst(args[0], env)
             fits = depth + self._depth_of(inner, {}) <= budget + 1
             if depth == 1:
-                present = self.chooser('opt:' + label, 2, 1 if fits else 0) == 1
+                # top-level fields of the node under test: present by default (the fullest shape has every field)
+                present = self.chooser('opt:' + label, 2, 1) == 1
             else:
                 present = fits and depth <= 2
             if not present:
@@ -187,7 +188,7 @@ class TreeGen:
             inner = subst(args[0], env)
             fits = depth + self._depth_of(inner, {}) <= budget + 1
             if depth == 1:
-                n = self.chooser('vec:' + label, 3, 2 if fits else 0)
+                n = self.chooser('vec:' + label, 3, 2)
             else:
                 n = 1 if (fits and depth <= 2) else 0
             vals, refs = [], []
